@@ -92,6 +92,7 @@ def lr_guard_cases(wd):
     n = 0
     for cls in (hmclab.Samplers.RWMH, hmclab.Samplers.HMC):
         for lr, ok in ((0.5, False), (0.3, False), (1.0 + 2 ** -40, False), (0.0, False), (-1.0, False), (2.0, False),
+                       (float("nan"), False), (float("inf"), False), (float("-inf"), False),          # not numbers in (0.5, 1] either
                        (0.5 + 2 ** -40, True), (1.0, True), (0.75, True)):
             n += 1
             t = FnTarget(1, seed=5, special_rate=0.0)
